@@ -15,7 +15,9 @@ TECHNIQUE = (
     "<=2 fragment edits of templates; every textual metadata value checked against the citation's extent"
 )
 RULE = (
-    "documents = all concatenations of <=k fragments of A2; plus fragment-edit mutations of 4 templates. "
+    "documents = all concatenations of <=k fragments of A2; plus fragment-edit mutations of 4 templates; plus 9 forms whose "
+    "name/antecedent or post-citation material is separated from the citation by filler prose of EVERY length in a range "
+    "around the 300-character metadata window. "
     "distinct = distinct (tokenizer, text); non-trivial = >=1 returned citation carries >=1 textual metadata value."
 )
 ASSUMPTIONS = [
@@ -47,6 +49,25 @@ TEMPLATES = [
 ]
 
 
+FILLER = "alpha beta gamma delta epsilon zeta theta iota kappa lambda omicron sigma upsilon omega "
+WINDOW_FORMS = [
+    "{f} Lochner, Adarand, supra, at 5.",
+    "{f} Lochner, Adarand, 515 U.S., at 241.",
+    "{f} Lochner, Nobelman at 332, 113 S.Ct. 2106 (1993).",
+    "{f} Lochner v. Adarand, 515 U.S. 200 (1995).",
+    "{f} Lochner (1999) 3 Cal. 4th 5.",
+    "Foo v. Bar, 1 U.S. 1, 5 (2d Cir. 1999) ({f}) and Smith v. Jones, 2 F.2d 2 (2005).",
+    "Id. at 5 ({f}). Smith v. Jones, 2 F.2d 2 (2005).",
+    "Mass. Gen. Laws ch. 1, § 2 (West 1999) ({f}) (2005).",
+    "Foo v. Bar, 1 U.S. 1, {f}, 2 F.2d 2 (2005).",
+]
+WINDOW_RANGE = {"quick": (240, 330), "thorough": (150, 460)}
+
+
+def filler(n):
+    return (FILLER * (n // len(FILLER) + 2))[:n]
+
+
 def setup(tier, seed):
     if tier != "replay":
         tokenizer("HS")
@@ -54,7 +75,7 @@ def setup(tier, seed):
 
 
 def bounds(tier):
-    return {"alphabet_A2": len(A2), "depth": DEPTH[tier], "templates": len(TEMPLATES)}
+    return {"alphabet_A2": len(A2), "depth": DEPTH[tier], "templates": len(TEMPLATES), "window_forms": len(WINDOW_FORMS), "window_filler_lengths": WINDOW_RANGE[tier]}
 
 
 def evaluate(case, text, cits):
@@ -86,6 +107,9 @@ def shards(tier, seed):
         out += dd.seq_shards("plain-" + tok, "A2", len(A2), d[tok], tok)
     for ti in range(len(TEMPLATES)):
         out += dd.residue_shards("fragedit-AC", "fe", "AC", 16 if d["FE"] > 1 else 2, {"t": ti, "edits": d["FE"]})
+    lo, hi = WINDOW_RANGE[tier]
+    for tok in ("AC", "HS"):
+        out += dd.residue_shards("window-" + tok, "win", tok, 8, {"lo": lo, "hi": hi})
     return out
 
 
@@ -93,6 +117,9 @@ def run_shard(sh):
     st = Stats()
     if sh["kind"] == "seq":
         cases = dd.seq_cases(sh, ALPHABETS)
+    elif sh["kind"] == "win":
+        gen = (form.format(f=filler(n)) for n in range(sh["lo"], sh["hi"] + 1) for form in WINDOW_FORMS)
+        cases = ({"part": sh["part"], "tok": sh["tok"], "text": t} for t in dd.sliced(gen, sh["r"], sh["n"]))
     else:
         gen = ("".join(seq) for seq, _ in docspace.edit_mutations(TEMPLATES[sh["t"]], A2, sh["edits"]))
         cases = ({"part": sh["part"], "tok": sh["tok"], "text": t} for t in dd.sliced(gen, sh["r"], sh["n"]))
